@@ -34,7 +34,8 @@ pub(crate) fn gen(r: &mut Rng) -> Case {
         let usem = r.chance(1, 2);
         let outs: Vec<&str> = (0..k).map(|_| if usem { *r.pick(&SEG_OUT_M) } else { *r.pick(&SEG_OUT_I) }).collect();
         // an alpha in the output needs its binding: bind it in the input
-        let ins_t = if outs.contains(&"[Avoice]") { format!("{} ", ins.join(" ")).replacen(' ', "", 0).trim().to_string() } else { ins.join(" ") };
+        // (`[Avoice]` in the output takes its value from the first input element, where the alpha is bound)
+        let ins_t = if outs.contains(&"[Avoice]") { let mut v: Vec<String> = ins.iter().map(|x| x.to_string()).collect(); v[0] = match v[0].as_str() { x if x.ends_with(']') && x.contains(":[") => x.replacen(":[", ":[Avoice, ", 1), x if x.starts_with('[') && x.len() > 2 => x.replacen('[', "[Avoice, ", 1), "[]" => "[Avoice]".to_string(), x if x.starts_with('{') => "C:[Avoice]".to_string(), x => format!("{x}:[Avoice]") }; v.join(" ") } else { ins.join(" ") };
         let rule = format!("{} > {} {}", ins_t, outs.join(" "), envs(r));
         Case { class: if usem { "seg-only/matrix".into() } else { "seg-only/ipa".into() }, rule, word }
     } else {
